@@ -29,6 +29,7 @@ pub fn run(ctx: &Ctx) -> i32 {
         profile: Profile { max_tokens: ctx.tier.pick(10, 40), small_caps_weight: 255, queries: false, exact_queries: false, modes: &hist::ALL_MODES, sinks: &hist::ALL_SINKS, bom_prefix_weight: 48 },
         fills: vec![0xA5],
         mixed_sinks: true,
+        mixed_all: false,
     };
     let mut st = dech::run_dec_check(ctx, &dc);
     if !fw::should_stop() {
